@@ -18,8 +18,8 @@ FUNCTIONS = ['bycycle.objs.fit.BycycleBase.__init__', 'bycycle.objs.fit.BycycleB
              'bycycle.objs.fit.Bycycle.__getattr__', 'bycycle.objs.fit.BycycleGroup.fit',
              'bycycle.objs.fit.BycycleGroup.recompute_edges', 'bycycle.features.features.compute_features',
              'bycycle.burst.utils.recompute_edges']
-BOUNDS = {'quick': 'constructor: every subset of shorthand/full threshold names x min_n_cycles present/absent x method; real-pipeline steps: 1..2 cycles on N <= 6 (cyclepoint search cut); recompute_edges on 3..4-row tables; group: 2x4 and 2x2x4 arrays',
-          'thorough': 'real-pipeline steps: 1..3 cycles on N <= 8; recompute_edges on 3..5-row tables'}
+BOUNDS = {'quick': 'constructor: every subset of shorthand/full threshold names x min_n_cycles present/absent x method; real-pipeline steps: 1..2 cycles on N <= 6 (cyclepoint search cut); recompute_edges on 3..4-row tables; group fit + group recompute_edges: 2x4, 3x4, 2x2x4, 2x3x4, 3x2x4 arrays',
+          'thorough': 'real-pipeline steps: 1..3 cycles on N <= 8; recompute_edges on 3..5-row tables; group additionally 1x3x4, 3x1x4, 4x4'}
 OUTSIDE = 'histories are covered through the one-step argument plus four explicit 2-3 step histories; larger signals'
 STUBS = ['neurodsp stubs (same input -> same output); cut of compute_features / recompute_edges / compute_features_2d/3d where the *arguments* are the subject']
 ASSUMPTIONS = ['invariant Inv: thresholds, burst_kwargs, find_extrema_kwargs hold exactly what constructor and user edits put there']
@@ -52,8 +52,8 @@ def configs(tier):
     out.append({'step': 'recompute_cut'})
     for rows in ([3, 4] if q else [3, 4, 5]):
         out.append({'step': 'recompute_real', 'rows': rows})
-    for dims in (2, 3):
-        out.append({'step': 'group_cut', 'dims': dims})
+    for shape in ((2, 4), (3, 4), (2, 2, 4), (2, 3, 4), (3, 2, 4)) + (() if q else ((1, 3, 4), (3, 1, 4), (4, 4))):
+        out.append({'step': 'group_cut', 'dims': len(shape), 'shape': list(shape)})
     out.append({'step': 'getattr'})
     return out
 
@@ -406,12 +406,18 @@ def run(ctx, cfg):
         dims = cfg['dims']
         thr, exp = settings(ctx, 'cycles', 0, True)
         bg = fit.BycycleGroup(center_extrema='trough', thresholds=thr, return_samples=False)
-        shape = (2, 4) if dims == 2 else (2, 2, 4)
-        cnt = 8 if dims == 2 else 16
+        shape = tuple(cfg['shape'])
+        n0 = shape[0]
+        n1 = shape[1] if dims == 3 else None
+        cnt = 1
+        for d in shape:
+            cnt *= d
         vals = [ctx.real('x%d' % i) for i in range(cnt)]
         arr = np.array(list(vals), dtype=float).reshape(*shape)
-        toks = [pd.DataFrame({'id': [i]}) for i in range(4)]
-        result = [toks[0], toks[1]] if dims == 2 else [[toks[0], toks[1]], [toks[2], toks[3]]]
+        if dims == 2:
+            result = [pd.DataFrame({'id': [i]}) for i in range(n0)]
+        else:
+            result = [[pd.DataFrame({'id': [i * n1 + j]}) for j in range(n1)] for i in range(n0)]
         seen = []
         name = 'compute_features_2d' if dims == 2 else 'compute_features_3d'
         gmod = ctx.mod('bycycle.group.features')
@@ -436,24 +442,63 @@ def run(ctx, cfg):
         obl = [(a.get('fs') == 500.0 and a.get('f_range') == (8.0, 12.0) and a.get('axis') == 0 and a.get('n_jobs') == 2
                 and a.get('return_samples') is False, 'group fit passes fs, f_range, axis, n_jobs, return_samples'),
                (kw.get('center_extrema') == 'trough' and kw.get('burst_method') == 'cycles', 'group fit passes the stored scalar settings'),
-               (bg.df_features is result and len(bg) == 2, 'group fit stores the returned list')]
+               (bg.df_features is result and len(bg) == n0, 'group fit stores the returned list')]
         dict_eq(ctx, kw.get('threshold_kwargs'), exp, 'threshold_kwargs passed by group fit', obl)
         if not ctx.prove_all(obl):
             return
-        obl = []
-        for i in range(2):
-            if dims == 2:
-                m = bg[i]
-                obl.append((m.df_features is result[i] and bg.models[i] is m, 'models mirror df_features position by position'))
-                obl += [(ctx.eq(u, v), 'models hold the signal of their position') for u, v in zip(ctx.tolist(m.sig), ctx.tolist(arr[i]))]
+
+        def positions():
+            return [(i,) for i in range(n0)] if dims == 2 else [(i, j) for i in range(n0) for j in range(n1)]
+
+        def at(nested, pos):
+            for p in pos:
+                nested = nested[p]
+            return nested
+
+        def mirror(label):
+            obl = [(len(bg.models) == n0 and (dims == 2 or all(len(r) == n1 for r in bg.models)), 'models have the shape of df_features')]
+            if not ctx.prove_all(obl):
+                return False
+            for pos in positions():
+                m = at(bg, pos)
+                obl.append((m.df_features is at(bg.df_features, pos) and at(bg.models, pos) is m, 'models mirror df_features position by position' + label))
+                obl += [(ctx.eq(u, v), 'models hold the signal of their position' + label) for u, v in zip(ctx.tolist(m.sig), ctx.tolist(at(arr, pos)))]
                 obl.append((m.thresholds is bg.thresholds or m.thresholds == bg.thresholds, 'models carry the group settings'))
-            else:
-                for j in range(2):
-                    m = bg[i][j]
-                    obl.append((m.df_features is result[i][j], 'models mirror df_features position by position'))
-                    obl += [(ctx.eq(u, v), 'models hold the signal of their position') for u, v in zip(ctx.tolist(m.sig), ctx.tolist(arr[i][j]))]
-        obl.append(([m for m in bg] == list(bg.models), 'iteration yields the models in order'))
-        ctx.prove_all(obl)
+            obl.append(([m for m in bg] == list(bg.models), 'iteration yields the models in order'))
+            return ctx.prove_all(obl)
+        if not mirror(''):
+            return
+        # group edge recomputation: every model, once, with every *_threshold lowered by r
+        r = ctx.real('r')
+        calls = []
+        saved_rc = fit.rc_edges
+
+        def rec_rc(df, th, *a_, **k_):
+            tok = pd.DataFrame({'id': [100 + len(calls)]})
+            calls.append((df, th, tok))
+            return tok
+        fit.rc_edges = rec_rc
+        before = {pos: at(bg.df_features, pos) for pos in positions()}
+        try:
+            bg.recompute_edges(r)
+        except Exception as e:
+            ctx.fail('group recompute_edges: ' + exc_label(e))
+            return
+        finally:
+            fit.rc_edges = saved_rc
+        obl = [(len(calls) == len(before), 'group recompute_edges recomputes every model exactly once')]
+        lowered = {k: (v - r if k.endswith('_threshold') else v) for k, v in exp.items()}
+        for pos in positions():
+            mine = [c for c in calls if c[0] is before[pos]]
+            obl.append((len(mine) == 1, 'group recompute_edges recomputes the table of every position exactly once'))
+            if len(mine) == 1:
+                obl.append((at(bg.models, pos).df_features is mine[0][2], 'each model stores the recomputation of its own table'))
+                dict_eq(ctx, mine[0][1], lowered, 'thresholds handed to the edge recomputation (every *_threshold lowered by r)', obl)
+        dict_eq(ctx, bg.thresholds, exp, 'group thresholds untouched by recompute_edges', obl)
+        if not ctx.prove_all(obl):
+            return
+        if not mirror(' after recompute_edges'):
+            return
         try:
             bg.fit(np.zeros(4), 500.0, (8.0, 12.0))
             ctx.fail('1-D array accepted by BycycleGroup.fit')
